@@ -368,6 +368,9 @@ func checkC13(c *lib.Ctx) {
 	f6seen := 0
 
 	runCase := func(cs xfCase, hold *xfPeerHold) {
+		if lib.Stop(xfClass(cs.Srv) + "/" + cs.API) {
+			return
+		}
 		out := xfExec(cs, nil, root, hold)
 		path := cs.Path()
 		res.Case(cs.Text(), cs.Len > cs.Cfg.MP || cs.FileLen > cs.Cfg.MP)
